@@ -1096,6 +1096,27 @@ impl St {
             }
 
             // ---------------- environment ----------------
+            // `wait_until <unix ms>`: sleep, then spin, until the wall clock reaches that instant - several harness
+            // processes started one after the other leave this op at (nearly) the same moment.
+            "wait_until" => {
+                need(a, 1)?;
+                let t: u128 = a[0].parse().map_err(|_| Bad::Arg)?;
+                loop {
+                    let now = SystemTime::now()
+                        .duration_since(UNIX_EPOCH)
+                        .map(|d| d.as_millis())
+                        .unwrap_or(0);
+                    if now >= t {
+                        break;
+                    }
+                    if t - now > 3 {
+                        std::thread::sleep(Duration::from_millis(((t - now) as u64).saturating_sub(2)));
+                    } else {
+                        std::hint::spin_loop();
+                    }
+                }
+                Ok("ok".to_string())
+            }
             "fsize" => {
                 need(a, 1)?;
                 let lim = if a[0] == "-" {
